@@ -49,6 +49,10 @@ def gen(rng, tier, index):
         st["outcomes"] = {k: v for k, v in st["outcomes"].items() if k in stems and v not in ("wrong", "relabel")}
     plan["writer"] = ("seqs", "db", "json", "seqs")[index % 4]
     plan["logger"] = rng.random() < 0.25
+    # no app that keeps state from the first record it sees: with one, a resumed run
+    # (a new process, other first record) differs from the uninterrupted one for the
+    # reason recorded as known finding C14-K1, which says nothing about resuming
+    plan["take_n"] = 0
     # transient failures: these inputs fail in a first, complete pass and succeed in the
     # second pass (append mode) - the pass that is interrupted and resumed - so that the
     # retirement of failure records happens inside the interrupted run
